@@ -65,16 +65,13 @@ def specSignature (k : Key) : Nat × Nat :=
   let s := conventionalSignature k
   if s < 0 then (s.natAbs, 0) else (0, s.natAbs)
 
-/-- the interval from (l₁,a₁) up to (l₂,a₂) as crd writes degrees: number by letters, alteration against the major
-scale (`b`/`#` per semitone) -/
-def specDegreeStr (l₁ : Letter) (a₁ : Acc) (l₂ : Letter) (a₂ : Acc) : Option String :=
+/-- the interval from (l₁,a₁) up to (l₂,a₂): its number (by letters) and its size in semitones, the size taken
+nearest to the major-scale size of that number (so C up to Cb is a unison of -1, not a seventh) -/
+def specInterval (l₁ : Letter) (a₁ : Acc) (l₂ : Letter) (a₂ : Acc) : Nat × Int :=
   let step := (letterIndex l₂ + 7 - letterIndex l₁) % 7
   let dist : Int := (pitchOf l₂ a₂ - pitchOf l₁ a₁).emod 12
-  -- the distance belonging to this letter step, nearest to the major-scale size
   let alt0 : Int := dist - majorScale step
   let alt : Int := if alt0 > 6 then alt0 - 12 else if alt0 < -6 then alt0 + 12 else alt0
-  let pre := match alt with
-    | 0 => some "" | 1 => some "#" | 2 => some "##" | -1 => some "b" | -2 => some "bb" | _ => none
-  pre.map (· ++ toString (step + 1))
+  (step + 1, majorScale step + alt)
 
 end Crd.Spec
